@@ -20,6 +20,11 @@ with kind 0 `kern a`, 1 `kernAt a`, 2 `lig a b`, 3 `redirect a (b≠0)`.
                                    from the bytes: `<raw>` = `<n> (<b0> <b1> <b2> <b3>)*n <m> (<char> <remainder>)*m <k> <kern>*k`
 * `safe7 <raw> <nl> (<char> <next>)*nl <nr> (<char> <top> <mid> <bot> <rep>)*nr`
                                  → `1`/`0`: PLtoTF's seven-bit safety of the font (`safe7`; piece byte 0 = absent)
+* `predict <raw>`               → `rr=<0|1> dl=<0|1> | <raw>`: from the raw lig/kern sub-file of a .tfm (lig remainders of *all*
+                                   characters with a lig tag) the model of the current code predicts the raw sub-file of
+                                   pl_to_tfm(tfm_to_pl(·)): `decodeRaw`, `packKerns`, `unpackAll`, `printParse`, `unpackKerns`,
+                                   `pack`, `encodeWord` (`fail` if a step has no result); `rr`: a reachable word is a redirect
+                                   word (shape of C11-f), `dl`: a label without a step after the trip (shape of C11-b)
 * `dims <max> <n> <v>*n`        → `<table>* | <index of each v>*` (early-exit path of `compress`), or `lossy`
 -/
 open C11 Proto
@@ -142,6 +147,20 @@ def decRaw (c : Cur) : Option (Req × Cur) :=
     | _ => none
   | _ => none
 
+def decRawAll (c : Cur) : Option (List Word × List (Nat × Nat) × List Int × Cur) :=
+  match c with
+  | n :: t =>
+    match decWords n.toNat t with
+    | some (ws, m :: t) =>
+      match decPairs m.toNat t with
+      | some (es, k :: t) =>
+        match takeN k.toNat t with
+        | some (ks, t) => some (ws, es, ks, t)
+        | none => none
+      | _ => none
+    | _ => none
+  | _ => none
+
 def decQuints : Nat → Cur → Option (List (Nat × List Nat) × Cur)
   | 0, c => some ([], c)
   | n + 1, ch :: a :: b :: c :: d :: t =>
@@ -206,6 +225,29 @@ def handle (line : String) : String :=
       let a := printParse r.prog r.entries
       let b := normalise r.prog r.entries
       s!"{showInts (encProgram a.1 (sortByChar a.2) [])} | {showInts (encProgram b.1 (sortByChar b.2) [])} | nwf={b2i (nwf r.prog r.entries)}"
+    | _ => "bad-request"
+  | "predict" :: ws =>
+    match ints? ws >>= decRawAll with
+    | some (ws0, es0, ks0, []) =>
+      let p0 := decodeRaw ws0
+      let pre : Prog := ⟨packKerns ks0 p0.instrs, p0.lb, p0.rb⟩
+      let es := unpackAll p0.instrs es0
+      let rr := !noReachRedirect pre.instrs (reachable pre es)
+      let q := printParse pre es
+      let n := q.1.instrs.length
+      let dl := q.2.any (fun ce => decide (n ≤ ce.2)) || (match q.1.lb with | some l => decide (n ≤ l) | none => false)
+      let u := unpackKerns q.1.instrs
+      let head := s!"rr={b2i rr} dl={b2i dl} | "
+      match pack ⟨u.1, q.1.lb, q.1.rb⟩ q.2 with
+      | none => head ++ "fail"
+      | some (P, pe) =>
+        match P.instrs.mapM (encodeWord P.rb) with
+        | none => head ++ "fail"
+        | some ws =>
+          let words : List Int := (ws.map fun w => [(w.b0 : Int), (w.b1 : Int), (w.b2 : Int), (w.b3 : Int)]).flatten
+          let es := sortByChar pe
+          head ++ showInts ([(ws.length : Int)] ++ words ++ [(es.length : Int)] ++
+            (es.map fun e => [(e.1 : Int), (e.2 : Int)]).flatten ++ [(u.2.length : Int)] ++ u.2)
     | _ => "bad-request"
   | "rawsem" :: ws =>
     match ints? ws >>= decRaw with
